@@ -209,6 +209,44 @@ def build_harness(name, variant, sources=None, extra_flags=(), link_lib=True, co
     return exe
 
 
+TOOLS = {
+    "hwloc-calc": ["utils/hwloc/hwloc-calc.c"],
+    "hwloc-diff": ["utils/hwloc/hwloc-diff.c"],
+    "hwloc-patch": ["utils/hwloc/hwloc-patch.c"],
+    "hwloc-distrib": ["utils/hwloc/hwloc-distrib.c"],
+    "hwloc-info": ["utils/hwloc/hwloc-info.c"],
+    "hwloc-annotate": ["utils/hwloc/hwloc-annotate.c"],
+    "lstopo-no-graphics": ["utils/lstopo/lstopo.c", "utils/lstopo/lstopo-draw.c", "utils/lstopo/lstopo-tikz.c", "utils/lstopo/lstopo-fig.c",
+                           "utils/lstopo/lstopo-svg.c", "utils/lstopo/lstopo-ascii.c", "utils/lstopo/lstopo-text.c", "utils/lstopo/lstopo-xml.c",
+                           "utils/lstopo/lstopo-shmem.c", "utils/hwloc/common-ps.c"],
+}
+
+
+def build_tools(variant):
+    """Compile the repository's command-line tools from /repo/utils against the variant's library; returns the directory."""
+    v = VARIANTS[variant]
+    lib = build_lib(variant)
+    d = os.path.join(variant_dir(variant), "tools")
+    with Lock(os.path.join(CACHE, "locks", "tools-%s-%s" % (tree_hash(), variant))):
+        if os.path.exists(os.path.join(d, "DONE")):
+            return d
+        t0 = time.time()
+        os.makedirs(d, exist_ok=True)
+
+        def one(item):
+            name, srcs = item
+            cmd = ([v["cc"]] + v["flags"] + ["-D_GNU_SOURCE", "-w", "-I" + os.path.join(REPO, "utils/hwloc"), "-I" + os.path.join(REPO, "utils/lstopo")] +
+                   includes() + [os.path.join(REPO, x) for x in srcs] + [lib, "-o", os.path.join(d, name)] + LINK_LIBS + ["-lncursesw"])
+            rc, out = _run(cmd)
+            if rc != 0:
+                raise HarnessError("tool compile failed: %s\n%s" % (" ".join(cmd), out[-4000:]))
+        with ThreadPoolExecutor(max_workers=len(TOOLS)) as ex:
+            list(ex.map(one, TOOLS.items()))
+        open(os.path.join(d, "DONE"), "w").write("ok\n")
+        log("[vbuild] %d tools (%s) built in %.1fs" % (len(TOOLS), variant, time.time() - t0))
+    return d
+
+
 # ---------------------------------------------------------------------------------------
 # snapshots
 
